@@ -116,10 +116,13 @@ class HandlerInterp(object):
         return self.ret
 
     def block(self, stmts):
-        for st in stmts:
+        stmts = list(stmts)
+        for pos_, st in enumerate(stmts):
             if self.ret is not None:
                 return
             if isinstance(st, ast.Expr) and isinstance(st.value, ast.Constant):
+                continue
+            if isinstance(st, ast.Pass):
                 continue
             if isinstance(st, ast.Assign) and len(st.targets) == 1:
                 t = st.targets[0]
@@ -144,6 +147,9 @@ class HandlerInterp(object):
                     self.stored['horizons'] = self.val(st.value)
                     continue
                 raise AnalysisError('%s: assignment `%s` not interpreted' % (self.f.where, ast.unparse(st)[:60]))
+            if isinstance(st, ast.If) and isinstance(st.test, ast.UnaryOp) and isinstance(st.test.op, ast.Not):
+                # `if not T: A else: B` is `if T: B else: A`
+                st = ast.copy_location(ast.If(test=st.test.operand, body=list(st.orelse) or [ast.Pass()], orelse=list(st.body)), st)
             if isinstance(st, ast.If):
                 try:
                     test = self._test(st.test)
@@ -151,10 +157,25 @@ class HandlerInterp(object):
                     raise AnalysisError('%s: condition `%s` not interpreted' % (self.f.where, ast.unparse(st.test)))
                 before = dict(self.env)
                 self.block(st.body)
-                a = self.env
+                a, ra = self.env, self.ret
+                self.ret = None
                 self.env = dict(before)
                 self.block(st.orelse)
-                b = self.env
+                b, rb = self.env, self.ret
+                self.ret = None
+                if ra is not None or rb is not None:
+                    # an arm returns: the statements behind the `if` are the rest of the other arm
+                    rest = stmts[pos_ + 1:]
+                    if ra is None:
+                        self.env = a
+                        self.block(rest)
+                        ra, self.ret = self.ret, None
+                    if rb is None:
+                        self.env = b
+                        self.block(rest)
+                        rb, self.ret = self.ret, None
+                    self.ret = ra if ra == rb else ('cond', test, ra, rb)
+                    return
                 merged = {}
                 for k in set(a) | set(b):
                     if a.get(k) == b.get(k):
@@ -328,6 +349,20 @@ def _horizon_value(ix, cls, f, nodes):
     return out
 
 
+def _simplify_cond(v, known=()):
+    """cond(T, cond(T, a, b), cond(T, c, d)) is cond(T, a, d): inside an arm the test has the value that selected the arm"""
+    if not isinstance(v, tuple):
+        return v
+    if v and v[0] == 'cond':
+        for (t, truth) in known:
+            if t == v[1]:
+                return _simplify_cond(v[2] if truth else v[3], known)
+        a = _simplify_cond(v[2], known + ((v[1], True),))
+        b = _simplify_cond(v[3], known + ((v[1], False),))
+        return a if a == b else ('cond', v[1], a, b)
+    return tuple(_simplify_cond(x, known) for x in v)
+
+
 def check_delay(ix, rep, pcls, rule='R-DELAY'):
     nodes = D.node_classes(ix)
     pd = D.dispatch_of(ix, pcls)
@@ -346,7 +381,7 @@ def check_delay(ix, rep, pcls, rule='R-DELAY'):
         rep.analysed(f)
         rep.unit(f.module.rel)
         n += 1
-        ret = HandlerInterp(ix, pcls, f, nodes).run()
+        ret = _simplify_cond(HandlerInterp(ix, pcls, f, nodes).run())
         slot = 'shape:%s' % nc.name
         k = 2 if ix.is_subclass(nc, binary) else 1 if ix.is_subclass(nc, unary) else 0
         why = _judge(nc.name, k, ret, R, H, consumed)
@@ -412,6 +447,8 @@ def _judge(name, k, ret, R, H, consumed):
     consumed[name] = zero
     # style A
     def base_ok(v):
+        if v[0] == 'other' or (v[0] == 'build' and any(isinstance(x, tuple) and x and x[0] == 'other' for x in v[2])):
+            raise AnalysisError('pastifier handler of %s: the rebuilt value `%s` is not read' % (name, (v[1] if v[0] == 'other' else [x for x in v[2] if x[0] == 'other'][0][1])))
         if v[0] != 'build':
             return 'the rebuilt value is not a constructor call'
         if v[1] != name:
@@ -442,6 +479,15 @@ def _judge(name, k, ret, R, H, consumed):
             r = base_ok(ret[3])
             return None if r in (None, 'IV') else r
         return 'delay loop does not apply Previous exactly R-H times'
+    def _has_cond(v, top=True):
+        if isinstance(v, tuple):
+            if v and v[0] == 'cond' and not top:
+                return True
+            return any(_has_cond(x, False) for x in v)
+        return False
+    if ret[0] != 'cond' and _has_cond(ret):
+        # the choice between delayed and undelayed is made inside the constructor arguments (shifted bounds chosen first, one constructor call): a form that is not read
+        raise AnalysisError('pastifier handler of %s: the delay is decided inside the arguments of the rebuilt node, not around it' % name)
     if ret[0] != 'cond':
         r = base_ok(ret)
         if r in (None, 'IV'):
